@@ -2,7 +2,7 @@
 from fractions import Fraction as Fr
 import math
 import numpy as np
-from .common import guarded, run_model, rats, rows, frac, close, numerator_of
+from .common import guarded, run_model, rats, rows, frac, close, numerator_of, POOL, layout
 from .npcutil import npc_exact, row_pvals_exact
 
 RULE = ("paired npc calls on generated integer distr matrices (B = 2..30, 2..5 columns, ties): p vs p raised in "
@@ -22,8 +22,10 @@ def run(ctx):
     from scipy.stats import norm
     ops, meta = [], []
     user = lambda p: -np.sum(p)
-    def call(pv, D, comb, plus1):
-        return guarded(npc.npc, np.array([float(t) for t in pv]), np.array(D, dtype=float),
+    def call(pv, D, comb, plus1, reuse=True):
+        # reused buffers in varying memory layouts: results may depend on the contents only
+        Darr = layout(POOL.get("distr", D, float), ctx.rng) if reuse else np.array(D, dtype=float)
+        return guarded(npc.npc, POOL.get("pv", [float(t) for t in pv], float) if reuse else np.array([float(t) for t in pv]), Darr,
                        combine=(user if comb == "callable" else comb), plus1=plus1)
     for _ in range(ctx.n(500, 8000)):
         B = ctx.rng.randint(2, 30) if ctx.rng.random() < 0.93 else ctx.rng.choice([64, 120]); n = ctx.rng.randint(2, 5); plus1 = ctx.rng.random() < 0.5
@@ -82,6 +84,17 @@ def run(ctx):
                 ctx.violation("oracle", det, site="npc")
             else:
                 ctx.bracketed += 1
+        # ---- the same relabelling done in place on the caller's own buffer (no new array object)
+        buf = np.array(D, dtype=float); pbuf = np.array([float(t) for t in pv])
+        ra = guarded(npc.npc, pbuf, buf, combine=(user if comb == "callable" else comb), plus1=plus1)
+        buf[:, :] = buf[:, perm]; pbuf[:] = pbuf[perm]
+        rb = guarded(npc.npc, pbuf, buf, combine=(user if comb == "callable" else comb), plus1=plus1)
+        ctx.count("pair-relabel-in-place")
+        if ra[0] != "ok" or rb[0] != "ok" or ra[1] != r0[1] or (rb[1] != r2[1] if r2[0] == "ok" else False):
+            det.update({"issue": "npc on a buffer relabelled in place differs from npc on a fresh relabelled copy (result depends on the array object, not its contents)",
+                        "perm": perm, "fresh": [float(r0[1]), float(r2[1]) if r2[0] == "ok" else None],
+                        "in_place": [ra[1:] if ra[0] != "ok" else float(ra[1]), rb[1:] if rb[0] != "ok" else float(rb[1])]})
+            ctx.violation("oracle", det, site="npc")
         # ---- rank-based: strictly increasing transformation of one column
         jcol = ctx.rng.randrange(n)
         f = ctx.rng.choice([lambda v: 3 * v + 1, lambda v: v ** 3, lambda v: math.exp(v / 3.0), lambda v: -1.0 / (v + 1),
